@@ -2926,6 +2926,12 @@ class Circuit(Unitary, StateVectorMap, Collection[Operation]):
         instantiater = cast(Instantiater, instantiater)
 
         # Instantiate
+        target = instantiater.check_target(target)
+        if target.dim != self.dim:
+            raise ValueError(
+                'Target dimension does not match circuit dimension:'
+                f' {target.dim} != {self.dim}.',
+            )
         instantiater.multi_start_instantiate_inplace(self, target, multistarts)
         return self
 
